@@ -71,3 +71,42 @@ func cmdWriterKeys() {
 		}
 	}
 }
+
+// nonFreshFieldWrites lists stores to fields of struct types of package pkgPath whose target object was not
+// allocated by the storing activation (base is not a local Alloc).
+func (p *Prog) nonFreshFieldWrites(pkgPath string) map[string][]string {
+	out := map[string][]string{}
+	scratch := newSorts(false)
+	for _, f := range p.allFuncs() {
+		for _, b := range f.Blocks {
+			for _, ins := range b.Instrs {
+				st, ok := ins.(*ssa.Store)
+				if !ok {
+					continue
+				}
+				key, base, fresh, _, ok2 := p.addrEffect(scratch, st.Addr)
+				if !ok2 || !strings.HasPrefix(key, "F:"+pkgPath+".") {
+					continue
+				}
+				if fresh {
+					continue
+				}
+				if _, isAlloc := base.(*ssa.Alloc); isAlloc {
+					continue
+				}
+				out[funcKey(f)] = append(out[funcKey(f)], key+" at "+p.posOf(ins))
+			}
+		}
+	}
+	return out
+}
+
+func cmdAstWrites() {
+	p, _ := loadProg("/repo", "/verif/contracts")
+	for f, ws := range p.nonFreshFieldWrites("grol.io/grol/ast") {
+		fmt.Println(f)
+		for _, w := range ws {
+			fmt.Println("   ", w)
+		}
+	}
+}
